@@ -256,6 +256,7 @@ def main(argv=None):
             case = best.get("case") or rec["first"]["case"]
             detail = best.get("detail") or rec["first"]["detail"]
             path = os.path.join("replays", prop, "new", f"{sig_hash(sig)}.json")
+            os.makedirs(os.path.join(ROOT, "replays", prop, "new"), exist_ok=True)
             with open(os.path.join(ROOT, path), "w") as fh:
                 json.dump({"property": prop, "signature": sig, "shard": rec["shard"],
                            "case": case, "detail": detail, "seed": seed, "tier": a.tier,
@@ -264,6 +265,7 @@ def main(argv=None):
     for sig in new_sigs[max_shrinks:]:
         rec = merged["failures"][sig]
         path = os.path.join("replays", prop, "new", f"{sig_hash(sig)}.json")
+        os.makedirs(os.path.join(ROOT, "replays", prop, "new"), exist_ok=True)
         with open(os.path.join(ROOT, path), "w") as fh:
             json.dump({"property": prop, "signature": sig, "shard": rec["shard"],
                        "case": rec["first"]["case"], "detail": rec["first"]["detail"],
